@@ -205,8 +205,8 @@ func validateCondition(typesys *typesystem.TypeSystem, tk *openfgav1.TupleKey) e
 				if directlyRelatedType.GetWildcard() != nil && !tuple.IsTypedWildcard(tk.GetUser()) {
 					continue
 				}
-			} else if tuple.IsTypedWildcard(tk.GetUser()) {
-				// This is a wildcard tuple but the directlyRelatedType tuple is not for wildcard.
+			} else if tuple.IsTypedWildcard(tk.GetUser()) || userRelation != "" {
+				// This is a wildcard or userset tuple but the directlyRelatedType is for a plain object.
 				continue
 			}
 
@@ -233,10 +233,17 @@ func validateCondition(typesys *typesystem.TypeSystem, tk *openfgav1.TupleKey) e
 
 	validCondition := false
 	for _, directlyRelatedType := range typeRestrictions {
-		if directlyRelatedType.GetType() == userType && directlyRelatedType.GetCondition() == tk.GetCondition().GetName() {
-			validCondition = true
-			break
+		if directlyRelatedType.GetType() != userType || directlyRelatedType.GetCondition() != tk.GetCondition().GetName() {
+			continue
 		}
+		// the condition must be allowed by the type restriction that applies to this user:
+		// a userset, a typed wildcard or a plain object of that type.
+		if directlyRelatedType.GetRelation() != userRelation ||
+			(directlyRelatedType.GetWildcard() != nil) != tuple.IsTypedWildcard(tk.GetUser()) {
+			continue
+		}
+		validCondition = true
+		break
 	}
 
 	if !validCondition {
